@@ -743,6 +743,11 @@ func (e *emitter) emitParams() {
 		if p.Quirk == "names" && i == 0 {
 			x = fmt.Sprintf("mkT%d(tasks)", t)
 		}
+		if p.PID%2 == 1 && ps.Types[t].Home == "local" {
+			// a conversion to the written-out type: for unnamed composite types (*S1, []byte, map[…]…)
+			// every type expression is a distinct go/types object, identical only up to types.Identical
+			x = fmt.Sprintf("(%s)(%s)", e.tyx(t), x)
+		}
 		return x
 	}
 	if p.Quirk == "params2" && len(p.Params) >= 2 {
